@@ -28,7 +28,7 @@ type PNGParams struct {
 	ICCName   []byte
 	ICC       []byte
 	Level     int    // zlib level -2..9
-	Damage    string // "", "bitflip", "adler", "cutstream"
+	Damage    string // "", "bitflip", "adler", "cutstream", "zlib-header"
 	DamageArg uint32
 	Post      []PNGChunk // chunks between iCCP and IDAT (PLTE etc.)
 	BodyLen   int64      // first IDAT payload (lazily generated)
@@ -193,7 +193,7 @@ func DrawPNG(t *tape.Tape, withICC int, iccSizes []int, allowDamage bool) PNGPar
 		p.ICC = ICCPayload(t, iccSizes)
 		p.Level = t.Intn(12) - 2
 		if allowDamage && t.Chance(1, 4) {
-			p.Damage = [...]string{"bitflip", "adler", "cutstream"}[t.Intn(3)]
+			p.Damage = [...]string{"bitflip", "adler", "cutstream", "zlib-header"}[t.Intn(4)]
 			p.DamageArg = t.U32()
 		}
 	}
@@ -283,6 +283,14 @@ func BuildPNG(p PNGParams) *File {
 			if len(zb) > 2 {
 				i := 2 + int(p.DamageArg>>3)%(len(zb)-2)
 				zb[i] ^= 1 << (p.DamageArg & 7)
+			}
+		case "zlib-header":
+			// the two-byte zlib header itself: wrong compression method, or a
+			// check value that does not fit
+			if p.DamageArg&1 == 0 {
+				zb[0] = zb[0]&0xF0 | byte(1+(p.DamageArg>>1)%7) // CM != 8
+			} else {
+				zb[1] ^= byte(1 + (p.DamageArg>>1)%31) // FCHECK off
 			}
 		case "adler":
 			zb[len(zb)-1-int(p.DamageArg%4)] ^= byte(1 + (p.DamageArg>>2)%255)
